@@ -163,6 +163,7 @@ def parse_template(text):
                     if not mm:
                         raise TemplateError(f"bad insert: {rest}")
                     pos, ordinal, anchor, kind, tail = mm.groups()
+                    anchor = anchor.replace("\\n", "\n")   # `\n` in an anchor stands for a line break
                     if kind == "<<":
                         block = []
                         while lines[i].strip() != "//@@   >>" and lines[i].strip() != "//@@ >>":
@@ -170,6 +171,8 @@ def parse_template(text):
                             i += 1
                         i += 1
                         tail = "\n" + "\n".join(block) + "\n"
+                    else:
+                        tail = tail + " "
                     fu.inserts.append((pos, int(ordinal) if ordinal else None, anchor, tail))
                 elif key == "contract":
                     while lines[i].strip() not in ("//@@   endcontract", "//@@ endcontract"):
@@ -292,7 +295,7 @@ def build(template_path, repo_root):
             # --- ghost insertions (specification only) ---
             ghost = []
             for pos, ordinal, anchor, gtext in fu.inserts:
-                if not gtext.strip().startswith(GHOST_PREFIXES):
+                if not (gtext.strip().startswith(GHOST_PREFIXES) or re.fullmatch(r"it\d*:", gtext.strip())):
                     raise TemplateError(f"fn {fu.name}: ghost insertion must start with one of {GHOST_PREFIXES}: {gtext.strip()[:40]}")
                 hits = find_all(body, anchor)
                 if ordinal is None:
